@@ -250,10 +250,18 @@ def r16_3(ctx):
     ]
     for name, size, extra, area, verts in cases:
         fn = ctx.fn(f"primitive.Primitive.{name}")
-        for s, c in ((Fr(3), (Fr(0), Fr(0))), (Fr(7, 2), (Fr(5), Fr(-2))), (Fr(1, 3), (Fr(-1, 2), Fr(4)))):
+        # the centre is given as a pair, or as an existing point object (Point2D(p) is p itself: the factory must
+        # neither build every vertex on that one object nor move the caller's point)
+        for s, c, as_point in ((Fr(3), (Fr(0), Fr(0)), False), (Fr(7, 2), (Fr(5), Fr(-2)), False),
+                               (Fr(1, 3), (Fr(-1, 2), Fr(4)), False), (Fr(7, 2), (Fr(5), Fr(-2)), True)):
             kw = dict(extra)
-            kw.update({size: s, "center": c})
+            cpt = PV(*c) if as_point else c
+            kw.update({size: s, "center": cpt})
             res, cap = outcome_of(ctx, fn, kw)
+            if as_point and res == "ok" and (cpt.x, cpt.y) != c:
+                out.bad(fn.qname, "the caller's centre point is modified by the factory", where=fn.where(),
+                        detail=f"centre given as a point object ({c[0]}, {c[1]}) is ({cpt.x}, {cpt.y}) afterwards")
+                continue
             if res != "ok" or "vertices" not in cap:
                 out.undecided(fn.qname, f"{size}={s}: construction not interpretable ({res})", where=fn.where())
                 continue
@@ -267,7 +275,8 @@ def r16_3(ctx):
                 out.bad(fn.qname, "vertex order is not counter-clockwise with the documented area", where=fn.where(),
                         detail=f"{size}={s}: signed area {got_a}, documented {area(s)}")
             else:
-                out.ok(fn.qname, f"{size}={s}, centre=({c[0]}, {c[1]}): area {got_a} > 0, documented vertices", where=fn.where())
+                out.ok(fn.qname, f"{size}={s}, centre=({c[0]}, {c[1]}){' given as a point object' if as_point else ''}: "
+                                 f"area {got_a} > 0, documented vertices", where=fn.where())
     return out
 
 
